@@ -13,6 +13,10 @@ SPEC = dict(
         "SymVerif.C04.mulEO_comm", "SymVerif.C04.mulEO_assoc", "SymVerif.C04.mulNO_perm",
         "SymVerif.C04.mulTree_eq_mulNO", "SymVerif.C04.mulTree_perm", "SymVerif.C04.mulEO_closed",
         "SymVerif.C04.mulOperandOK_iff",
+        # Mul: symbolic-exponent fragment (contains the numeric one)
+        "SymVerif.C04.mulEO_comm_sym", "SymVerif.C04.mulEO_assoc_sym", "SymVerif.C04.mulNO_perm_sym",
+        "SymVerif.C04.mulTree_eq_mulNO_sym", "SymVerif.C04.mulTree_perm_sym", "SymVerif.C04.mulEO_closed_sym",
+        "SymVerif.C04.mulOperandOKS_iff",
         # max / min, and / or
         "SymVerif.C04.maxMinE_perm", "SymVerif.C04.andOr_perm", "SymVerif.C04.C04_full_false",
         # the unrestricted statement is false (model level; the same inputs fail on the real library)
@@ -23,21 +27,25 @@ SPEC = dict(
         "SymVerif.AC.addCore_eq", "SymVerif.AC.repr_fromDict", "SymVerif.AC.mulF_eq", "SymVerif.AC.reprM_fromDict",
         "SymVerif.AC.datNew_atom", "SymVerif.AC.dok_ext", "SymVerif.AC.lk_upd", "SymVerif.AC.merge_comm",
         "SymVerif.AC.merge_assoc", "SymVerif.AC.merge_perm", "SymVerif.AC.numAdd_eq", "SymVerif.AC.numMul_eq",
+        "SymVerif.AC.datNewS_atom", "SymVerif.AC.mulFS_eq", "SymVerif.AC.dokG_ext", "SymVerif.AC.lkG_upd",
+        "SymVerif.AC.mergeG_comm", "SymVerif.AC.mergeG_assoc", "SymVerif.AC.mergeG_perm", "SymVerif.AC.expVal_inj",
+        "SymVerif.AC.expVal_add", "SymVerif.AC.maxMinE_perm_aux", "SymVerif.C04L.andOr_perm_aux",
     ],
     partial=[
         "C04_full (all exact operands) is FALSE on the library and on the model that mirrors it: witness_* theorems. "
         "All theorems are stated on decidable operand predicates: addOperandOK (= exact, invariant, not c*(sum), no sum "
-        "as a term of a sum - the complete class in which the oracle finds sums unique) and mulOperandOK (= non-zero "
+        "as a term of a sum - the complete class in which the oracle finds sums unique), mulOperandOK (= non-zero "
         "coefficient in Q(i), opaque bases - symbols, constants, function applications, sums - with exact numeric "
-        "exponents). Products outside mulOperandOK but inside mulOperandSafe (symbolic exponents on opaque bases, "
-        "radicals b**(p/q) of integers b >= 2 that are not perfect powers, zero factors) are covered by the "
-        "exhaustive permutation x bracketing oracle only",
+        "exponents) and mulOperandOKS (the same with arbitrary exponents that are addOperandOK summands: x**y, "
+        "x**(1/2 - y), f(x)**(2*z) ...). Products inside mulOperandSafe but outside mulOperandOKS (radicals b**(p/q) "
+        "of integers b >= 2 that are not perfect powers, zero factors) are covered by the exhaustive "
+        "permutation x bracketing oracle only",
         "the Mul theorems carry the fuel bound `total number of dictionary entries + 6 <= defaultFuel (100000)`",
         "and/or: permutation invariance of and_or (andOr_perm) only; invariance under grouping is checked by the oracle",
         "max/min: operands are exact real numbers, non-Max(Min) expressions and canonical Max(Min) nodes",
     ],
-    level_note="proof on the model for sums of the whole safe class and for products of the numeric-exponent "
-               "fragment: every binary bracketing of every permutation and the n-ary constructor give the same "
+    level_note="proof on the model for sums of the whole safe class and for products of opaque bases with numeric "
+               "or symbolic exponents: every binary bracketing of every permutation and the n-ary constructor give the same "
                "expression, for both dictionary iteration orders; the complement of the safe classes is a known "
                "finding (order-dependent normal forms) and is re-found by the oracle on every run",
     technique="executable Lean model (Model/Arith.lean + Model/AC.lean) with correspondence on tree dumps; both "
@@ -58,7 +66,8 @@ SPEC = dict(
     not_covered=[
         "inexact numbers, Infty, NaN (not exact operands); max(Inf, x) vs max(1, Inf, x) differ but are outside the "
         "property's operand class",
-        "products outside the numeric-exponent fragment: oracle only (safe class) / known finding (rest)",
+        "products with numeric radicals b**(p/q) (b >= 2 not a perfect power) or a zero factor: oracle only; "
+        "products outside mulOperandSafe: known finding",
         "and/or: no correspondence here (model and correspondence of and_or are C28's); oracle only",
         "order-dependence introduced by could_extract_minus inside trig constructors (operands are opaque here)",
         "more than 8 operands; exponents beyond the generator bounds of C03",
@@ -68,7 +77,7 @@ SPEC = dict(
         "order; inside the proved fragment the result is proved independent of the order, outside it agreement is "
         "tested by the correspondence",
     ],
-    level_text="Lean proof that sums (whole safe class) and products (numeric-exponent fragment) built from the same "
+    level_text="Lean proof that sums (whole safe class) and products (opaque bases, numeric or symbolic exponents) built from the same "
                "operands in any order and grouping, pairwise or n-ary, are the same expression on the executable "
                "model of add.cpp/mul.cpp, tied to /repo by differential correspondence; the property itself is "
                "evaluated exhaustively over permutations x bracketings on the real library each run",
